@@ -203,7 +203,88 @@ func checkLog(sp spec, obs []string) []vs.Failure {
 	return fs
 }
 
+// GoChannel-backed variant: the handler consumes from and publishes to a real GoChannel; a message is
+// published concurrently with Close.
+func gochannelScenario(handler string, c int) *explore.Scenario {
+	sp := spec{Handler: handler, N: 1, Closers: 1}
+	return &explore.Scenario{Name: fmt.Sprintf("gochannel/%s/closers1", handler), C: c, Opts: vs.Options{MaxSteps: 60000},
+		Check: func(r *vs.Result) []vs.Failure {
+			var fs []vs.Failure
+			for _, f := range checkLog(sp, r.Obs) {
+				// the Pub/Sub here is not scripted: its Close() calls are not counted
+				if f.Clause != "closes-subscriber" && f.Clause != "closes-publisher" {
+					fs = append(fs, f)
+				}
+			}
+			return fs
+		},
+		Body: func() {
+			g := hx.GCfg{}.New()
+			r, err := message.NewRouter(message.RouterConfig{CloseTimeout: closeTimeout}, nil)
+			if err != nil {
+				vs.Fail("setup", "%v", err)
+				return
+			}
+			var delivered []*message.Message
+			r.AddHandler("h", "in", g, "out", g, func(m *message.Message) ([]*message.Message, error) {
+				delivered = append(delivered, m)
+				vs.Observe("start %s", m.UUID)
+				switch handler {
+				case "yield":
+					vs.Yield()
+				case "short":
+					time.Sleep(time.Second)
+				}
+				vs.Observe("end %s", m.UUID)
+				return hx.Outputs(m, 1), nil
+			})
+			go func() {
+				err := r.Run(context.Background())
+				vs.Observe("run %v", err)
+			}()
+			<-r.Running()
+			var wg vs.WaitGroup
+			wg.Add(2)
+			go func() {
+				defer wg.Done()
+				g.Publish("in", hx.Msg("m0")) // may fail once the Pub/Sub is closed by the router: fine
+			}()
+			go func() {
+				defer wg.Done()
+				err := r.Close()
+				st := ""
+				for _, m := range delivered {
+					s := "unsettled"
+					if closedNow(m.Acked()) {
+						s = "acked"
+					} else if closedNow(m.Nacked()) {
+						s = "nacked"
+					}
+					st += m.UUID + "=" + s + ","
+				}
+				e := "nil"
+				if err != nil {
+					e = "err"
+				}
+				vs.Observe("close 0 %s [%s]", e, st)
+			}()
+			wg.Wait()
+			vs.Quiesce()
+			vs.Observe("final subClose=1 pubClose=1")
+		}}
+}
+
 func init() {
+	for _, h := range []string{"instant", "yield", "short"} {
+		h := h
+		sc := gochannelScenario(h, 0)
+		reg.AddW("C06", sc.Name, reg.Quick, 25, func(t reg.Tier) *explore.Scenario {
+			if t == reg.Thorough {
+				return gochannelScenario(h, 1)
+			}
+			return gochannelScenario(h, 0)
+		})
+	}
 	add := func(tier reg.Tier, w int, sp spec, ct int, dporT float64) {
 		sc := scenario(sp)
 		reg.AddW("C06", sc.Name, tier, w, func(t reg.Tier) *explore.Scenario {
@@ -216,7 +297,11 @@ func init() {
 		})
 	}
 	for _, h := range []string{"instant", "yield", "short", "long", "blocked"} {
-		add(reg.Quick, 10, spec{Handler: h, N: 1, Closers: 1, C: 1}, 2, 0)
+		t1 := reg.Quick
+		if h == "yield" { // in quick the gated variant covers the yielding handler with one closer
+			t1 = reg.Thorough
+		}
+		add(t1, 10, spec{Handler: h, N: 1, Closers: 1, C: 1}, 2, 0)
 		add(reg.Quick, 20, spec{Handler: h, N: 1, Closers: 2, C: 0}, 1, 0)
 		add(reg.Thorough, 40, spec{Handler: h, N: 2, Closers: 1, C: 1}, 2, 0)
 	}
